@@ -3,15 +3,20 @@
 manifest is always schema-valid and in step with what ./check implements)."""
 import json, os
 
-CLAIMED = {
-    "C12": dict(
-        category="proof",
-        text="Coq theorems: each modelled builtin's implementation model (integer.rs/binary.rs/vector.rs control flow on machine integers and ropes) equals a plain reference spec over unbounded Z / flat byte lists and never panics, for all arguments; the model is tied to the code by differential execution of the extracted model against the real builtin functions (debug and release builds) on boundary-weighted arguments and every rope shape.",
-        design_ref="§5 C12",
-        note="Trusted: Coq kernel, extraction (ExtrOcamlBasic), OCaml driver, Rust harness, generators. integer_sin/cos go through f64/libm and are only exercised for totality. Model-coverage guard lists unmodelled builtins in the evidence.",
-        technique="Coq proof (impl model = reference spec, panic-freedom) + model/code correspondence by differential execution",
-    ),
-}
+def load_claimed():
+    """Every plugin vplib/props/cXX.py that defines a MANIFEST dict is a claimed property."""
+    import importlib, sys
+    here = os.path.dirname(os.path.abspath(__file__))
+    sys.path.insert(0, here)
+    out = {}
+    for f in sorted(os.listdir(os.path.join(here, "vplib", "props"))):
+        if f.startswith("c") and f.endswith(".py"):
+            mod = importlib.import_module("vplib.props." + f[:-3])
+            if getattr(mod, "MANIFEST", None):
+                out[f[:-3].upper()] = mod.MANIFEST
+    return out
+
+CLAIMED = load_claimed()
 
 NOT_APPLICABLE = {
     "C18": "front-end totality is absence of Rust-level partiality in nom/compiler code; a total Gallina model cannot express it and no Rust-to-Coq translation is available offline (DESIGN.md §6)",
